@@ -245,3 +245,57 @@ package reader
 //@   ensures [the-channel-clock-never-goes-back] tsCts(m, replicateID + "." + channelName) >= old(tsCts(m, replicateID + "." + channelName))
 //@   ensures [resume-floor] c != 18446744073709551615 ==> tsCts(m, replicateID + "." + channelName) >= c
 //@   ensures [the-last-tick-is-untouched] tsLts(m, replicateID + "." + channelName) == old(tsLts(m, replicateID + "." + channelName))
+
+// ---- C13: the catalog watch is opened before the listing --------------------------------------------------------
+// etcdWatches: watches opened on the etcd client (clientv3.Watcher.Watch returns the event channel of a watch that
+// delivers every later put - the guarantee of etcd, trusted).
+//@ ghost var etcdWatches int
+//@ trusted func (go.etcd.io/etcd/client/v3.Watcher).Watch
+//@   params recv ctx key opts
+//@   ensures etcdWatches == old(etcdWatches) + 1
+//@   modifies etcdWatches
+// WatchCollection / WatchPartition: when the call returns the watch exists (opened by this call or by an earlier one);
+// only the *processing* of its events waits for StartWatch.  A watch opened later (e.g. inside the goroutine, after the
+// gate) would miss objects created between the listing and StartWatch.
+//@ func (*EtcdOp).collectionPrefix
+//@   props C13
+//@   modifies nothing
+//@   inline
+//@ func (*EtcdOp).partitionPrefix
+//@   props C13
+//@   modifies nothing
+//@   inline
+//@ func (*EtcdOp).WatchCollection
+//@   props C13
+//@   requires e != nil && e.etcdClient != nil
+//@   ensures [the-collection-watch-is-open-when-the-call-returns] onceDone(addr(e.watchCollectionOnce)) && (!old(onceDone(addr(e.watchCollectionOnce))) ==> etcdWatches == old(etcdWatches) + 1)
+//@ func (*EtcdOp).WatchPartition
+//@   props C13
+//@   requires e != nil && e.etcdClient != nil
+//@   ensures [the-partition-watch-is-open-when-the-call-returns] onceDone(addr(e.watchPartitionOnce)) && (!old(onceDone(addr(e.watchPartitionOnce))) ==> etcdWatches == old(etcdWatches) + 1)
+
+// ---- C13: a catalog event is consumed only by a task that selects the object -----------------------------------
+// The dispatcher (EtcdOp watch loops) offers an event to the subscribed tasks one after the other and stops at the
+// first consumer that returns true; a consumer whose task does not select the object must therefore return false.
+// selectAsked / selectAnswer: the task's selection function (shouldReadFunc) was asked for this event / its answer.
+//@ ghost var selectAsked bool
+//@ ghost var selectAnswer bool
+// the partition consumer registered by StartRead
+//@ func (*CollectionReader).StartRead$1$2
+//@   props C13
+//@   requires info != nil && deref(reader) != nil && deref(reader).metaOp != nil && deref(reader).channelManager != nil
+//@   assumes !selectAsked
+//@   private selectAsked selectAnswer
+//@   dyncall modifies *
+//@   dyncall results 2 ensures selectAsked && selectAnswer == result1
+//@   ensures [an-event-the-task-does-not-select-is-left-to-the-other-tasks] selectAsked && !selectAnswer ==> !result
+// the collection consumer registered by StartRead
+//@ func (*CollectionReader).StartRead$1$1
+//@   props C13
+//@   requires info != nil && info.Schema != nil && deref(reader) != nil && deref(reader).metaOp != nil && deref(reader).channelManager != nil
+//@   assumes !selectAsked
+//@   private selectAsked selectAnswer
+//@   dyncall modifies *
+//@   dyncall results 2 ensures selectAsked && selectAnswer == result1
+//@   ensures [an-event-the-task-does-not-select-is-left-to-the-other-tasks] selectAsked && !selectAnswer ==> !result
+//@   loop 1 invariant selectAsked && selectAnswer
